@@ -285,6 +285,7 @@ func runC05(w *W) {
 		}
 		in := w.AllocData(raw, pickInt(t, "in.place", simrt.PlaceHeap, simrt.PlaceGuardEnd, simrt.PlaceReadOnly))
 		tree.Node = generic.NewNode(thrift.Type(rootT.Kind), in.B)
+		w.Sig(fmt.Sprintf("load:%s/k%d/n%d", how, rootT.Kind, sizeBucket(len(raw))))
 		w.NextOp(fmt.Sprintf("load %d (%s): %s, %d bytes: %x", li, how, typeName(rootT), len(raw), clipb(raw, 200)))
 		w.opFacts = c.facts
 		if err := tree.Load(rec, opts); err != nil {
@@ -493,4 +494,13 @@ func (c *c05) checkLookup(what string, got *generic.PathNode, want *TVal) {
 		w.Failf("lookup-wrong-child", c.facts, "%s: returned child holds %x, want %x", what, clipb(got.Node.Raw(), 100), clipb(encodeThrift(nil, want), 100))
 	}
 	w.Count("lookup_present")
+}
+
+func sizeBucket(n int) int {
+	b := 0
+	for n > 0 {
+		n >>= 2
+		b++
+	}
+	return b
 }
